@@ -4,14 +4,19 @@ Suite (driver dyn.py, generator dynlib.py): forests of static spaces with parame
 defaults; None / extra references / another base / conditional on an argument), child spaces, nested ItemSpaces
 (S[1][2], S[1].C[5], S.C[1]), all argument spellings, and histories of requests, evaluations through kept handles
 and edits of the definitions (set_formula, new/deleted cells, new/changed/deleted reference, new/deleted space,
-parameter-formula change, clear_items, del S[..]).  After every operation: the output, the keys of all live
+parameter-formula change, references of the model, clear_items, del S[..]).  After every operation: the output, the keys of all live
 ItemSpaces (through .itemspaces, recursively) and the validity of every space / cells handle kept.
 
 (T) Dyn/Tie.v runs Dyn/Model.v on the same operations and compares every observation.
+(P) through the proved specification: every value served equals Dyn.Model.spec_value of the current definitions
+    (evaluated in Coq on the implementation's outputs, Dyn.Tie.spec_check); every returned key instantiates.
 (P) differential on the implementation: every value (or failure kind) served through a live or re-created
     handle equals what a FRESH model built from the current definitions gives for the same instance and
     arguments (per evaluation, and for every cells of every valid handle at the end of the history);
     requests that bind equally return the very same object (`S[a] is S(a)`), others a different one.
+
+About one case in ten uses a vocabulary outside Dyn/Model.v (a parameter formula that calls a cells of a static
+space, so that the ItemSpace hangs below that cells in the trace graph); those go through the differential (P) only.
 
 Known defects of the pinned tree (triggers avoided by the generator, see dynlib.py; witnesses
 corpus/C07/finding_*.json replayed through the same (P) oracle; ledger findings.d/C07.txt):
@@ -95,7 +100,7 @@ def focus(case, r):
 
 def run(tier, seed, rng):
     out = Outcome()
-    n = 420 if tier == "quick" else 9000
+    n = 800 if tier == "quick" else 9000
     witnesses, regress = load_corpus()
     cases = []
     for i, w in enumerate(witnesses):
@@ -123,7 +128,7 @@ def run(tier, seed, rng):
     for c, r in zip(cases, res):
         fails = oracle(c, r)
         if c.get("witness"):
-            fw.witness_result(out, "C07", c["witness"], bool(fails), c["wtext"],
+            fw.witness_result(out, "C07", c["witness"], bool(fails), c["wtext"][:220],
                               {"case": c, "detail": "; ".join(fails)[:1500], "script": script_of(c)})
             continue
         if fails:
@@ -146,13 +151,26 @@ def run(tier, seed, rng):
                                    "model": show[-3000:], "script": script_of(c)})
     for i in bad[10:]:
         out.tie_mismatches.append({"case": emitted[i][0], "detail": "Dyn/Model.v and the implementation disagree"})
+    # ---- (P) through the proved specification function (Dyn.Tie.spec_check)
+    sbad = fw.run_coq_cases("C07spec", ["Dyn.Model", "Dyn.Tie"], CASE_TYPE, "spec_check", terms,
+                            shard=30 if tier == "quick" else 120)
+    for i in sbad[:10]:
+        c, r = emitted[i]
+        show = fw.coq_show("C07spec", ["Dyn.Model", "Dyn.Tie"], "spec_show %s" % terms[i])
+        out.p_failures.append({"case": c, "script": script_of(c),
+                               "detail": "a value served by the implementation is not the specification value (Dyn.Model.spec_value) "
+                                         "of the current definitions, or a returned key does not instantiate; per operation "
+                                         "(spec value of evaluations, agrees?): " + " ".join(show.split())[-1800:],
+                               "impl_outputs": [st["out"] for st in r["steps"]]})
     out.evaluations = len(cases)
     out.traces_validated = len(terms) - len(bad)
     out.distinct_nontrivial = nfocus
     out.rule = ("distinct after canonicalising (definitions, operations) as JSON; counted when a kept handle is evaluated "
                 "after an edit of the definitions or one instance is requested through two spellings")
     out.samples = [{"defs": c["defs"], "ops": c["ops"]} for c in cases if not c.get("witness") and "defs" in c][:2]
-    out.distribution = {"cases": len(cases), "witnesses": len(witnesses), "operations": dict(dist), "outputs": dict(outs),
+    out.distribution = {"cases": len(cases), "witnesses": len(witnesses), "regressions": len(regress),
+                        "differential_only_cases": sum(1 for c in cases if c.get("ponly")),
+                        "operations": dict(dist), "outputs": dict(outs),
                         "precautions_before_unpropagated_edits": precautions}
     out.notes.append("generator avoids the triggers of D14 D15 D16 D18 D38: %d edits were preceded by clear_items on every "
                      "parametrised space" % precautions)
